@@ -597,6 +597,9 @@ class State(MutableMapping):
                 )
             weight = old_weight if old_weight is not None else cur_weight
             value = torch.where(to_revert, old_value, cur_value)
+            if weight is None:
+                # weighted tensors that carry no weights (all entries count)
+                return WeightedTensor(value)
             if weight.shape != value.shape:
                 weight = weight.expand(value.shape)
             return WeightedTensor(value, weight.clone())
